@@ -235,6 +235,54 @@ func checkC03(c *core.Check) {
 		specs[id] = a
 		groups = append(groups, g)
 	}
+	// 2a'. deep: the same sets under literal prefixes of three and of five segments, so that their templates part at
+	// depth 4 .. 8 (tree nodes with several children far from the root)
+	for di, deep := range [][]string{{"m", "n"}, {"m", "n", "o", "q"}} {
+		nDeep := 12
+		if thorough {
+			nDeep = 80
+		}
+		taken := 0
+		for si := 0; taken < nDeep && si < len(sets); si++ {
+			// (sets in which two templates part at their first segment and both go on below it: the node at the end of
+			// the prefix then has two inner children; one package per set, so that a set whose package does not build -
+			// C01's business - does not hide the others)
+			inner := map[string]bool{}
+			for _, m := range sets[si].Set {
+				if len(m.T) >= 2 {
+					inner[m.T[0].K+":"+m.T[0].S] = true
+				}
+			}
+			if len(inner) < 2 {
+				continue
+			}
+			taken++
+			id := fmt.Sprintf("dp%dx%d", di, taken)
+			a := &aspec.ASpec{Base: aspec.Base{Form: "servers", Segs: []string{"v1"}}, SpecName: "openapi.yaml", Flags: aspec.Flags{APIHandler: true, DoNotEdit: true}, Security: aspec.Sec{K: "none"}}
+			g := pGroup{Pkg: id, ASpec: a, API: driver.APIConfig{Mw: 1, NotFound: true}}
+			prefix := append([]string{fmt.Sprintf("s%04d", si)}, deep...)
+			for mi, m := range sets[si].Set {
+				t := mountNamed(prefix, m.T, []string{"acct", "org", "zeta"}[mi%3])
+				pi := aspec.PathItem{Template: t}
+				for _, meth := range m.Ms {
+					pi.Ops = append(pi.Ops, simpleOp(meth, t))
+				}
+				a.Paths = append(a.Paths, pi)
+			}
+			for _, p := range reqPaths {
+				if len(p) > 3 {
+					continue
+				}
+				path := "/v1/" + strings.Join(prefix, "/")
+				for _, s := range p {
+					path += "/" + s
+				}
+				g.Cases = append(g.Cases, mkReq(newCase(), "GET", path, nil, a))
+			}
+			specs[id] = a
+			groups = append(groups, g)
+		}
+	}
 	// 2b. root-level: sets unpacked at the root under every base form
 	bases := baseForms()
 	for k := 0; k < nRoot && k < len(sets); k++ {
